@@ -170,11 +170,15 @@ def pow_(x, p):
 OPS = {'fmul': mul, 'fdiv': div, 'fadd': add, 'fsub': sub}
 
 
-def run(fn, args, lookup=None, depth=0):
-    """straight-line function over doubles -> abstract return value, or None when it is not straight-line arithmetic"""
+def run(fn, args, lookup=None, depth=0, mem=None):
+    """straight-line function over doubles -> abstract return value, or None when it is not straight-line arithmetic.
+    An argument ('ptr', name) is an object whose double fields live in mem[(name, field index)]; loads and stores through
+    constant-index geps of it are followed (a void function returns True, the results are in mem)."""
     if len(fn.blocks) != 1 or depth > 3:
         return None
     env = dict(zip([p[1] for p in fn.params], args))
+    if mem is None:
+        mem = {}
 
     def val(o):
         if o.k == 'reg':
@@ -188,7 +192,25 @@ def run(fn, args, lookup=None, depth=0):
         elif i.op == 'fneg':
             env[i.res] = neg(val(i.ops[0]))
         elif i.op == 'ret':
-            return val(i.ops[0]) if i.ops else None
+            return val(i.ops[0]) if i.ops else True
+        elif i.op == 'gep':
+            b = env.get(i.ops[0].v) if i.ops[0].k == 'reg' else None
+            if b is not None and b[0] == 'ptr' and all(o.k == 'int' for o in i.ops[1:]) and len(i.ops) == 3 and i.ops[1].v == 0:
+                env[i.res] = ('addr', b[1], i.ops[2].v)
+            else:
+                return None
+        elif i.op == 'bitcast' and i.ops[0].k == 'reg' and env.get(i.ops[0].v, TOP)[0] in ('ptr', 'addr'):
+            env[i.res] = env[i.ops[0].v]
+        elif i.op == 'load':
+            a = env.get(i.ops[0].v) if i.ops[0].k == 'reg' else None
+            if a is None or a[0] not in ('addr', 'ptr'):
+                return None
+            env[i.res] = mem.get((a[1], a[2] if a[0] == 'addr' else 0), TOP)
+        elif i.op == 'store':
+            a = env.get(i.ops[1].v) if i.ops[1].k == 'reg' else None
+            if a is None or a[0] not in ('addr', 'ptr'):
+                return None
+            mem[(a[1], a[2] if a[0] == 'addr' else 0)] = val(i.ops[0])
         elif i.op in ('fpext', 'fptrunc'):
             return None
         elif i.op == 'call':
